@@ -230,6 +230,10 @@ func (mbs *metadataPartStorage) createRangeReader(ctx context.Context, tx databa
 		globalEnd = *endByte
 	}
 	if globalStart >= globalEnd {
+		if startByte == nil && endByte == nil {
+			// No range was requested: an empty object reads as an empty body.
+			return io.NopCloser(bytes.NewReader(nil)), nil
+		}
 		return nil, storage.ErrInvalidRange
 	}
 
